@@ -312,7 +312,35 @@ def rule_r1_r2(chk, prog):
                           'for a Boolean term', loc=m.loc(st),
                           nontrivial=True)
                 continue
-            got = _abstract_sort_result(f, direct[-1], param) if direct \
+            ret_ = direct[-1] if direct else None
+            if ret_ is not None and ret_.value is not None:
+                # a dispatch table indexed by the operator: specialise the
+                # returned expression for this operator
+                tabs = [x for x in ast.walk(ret_.value)
+                        if isinstance(x, ast.Subscript) and isinstance(
+                            x.value, ast.Name) and unparse(x.slice) in (
+                                'ident', 'ident.data')
+                        and len(m.globals.get(x.value.id, [])) == 1
+                        and isinstance(m.globals[x.value.id][0], ast.Dict)]
+                if tabs:
+                    from ..astutil import clone as _clone
+                    val = _clone(ret_.value)
+                    for x in ast.walk(val):
+                        if isinstance(x, ast.Subscript) and isinstance(
+                                x.value, ast.Name) and unparse(x.slice) in (
+                                    'ident', 'ident.data') and len(
+                                        m.globals.get(x.value.id, [])) == 1:
+                            d_ = m.globals[x.value.id][0]
+                            for k_, v_ in zip(d_.keys, d_.values):
+                                if isinstance(k_, ast.Constant) and \
+                                        k_.value == op and isinstance(
+                                            v_, ast.Constant):
+                                    x.__class__ = ast.Constant
+                                    x.__dict__.clear()
+                                    x.value = v_.value
+                                    x.kind = None
+                    ret_ = ast.Return(value=val)
+            got = _abstract_sort_result(f, ret_, param) if ret_ is not None \
                 else ('other', 'no direct return')
             rule = 'C16.R2' if want[0] == 'sortof' else 'C16.R1'
             ok = got == want or got == ('unknown', )
@@ -817,6 +845,22 @@ def rule_r4(chk, prog):
                                         ast.parse(val, mode='eval').body,
                                         env))
                                 res.append((k_, val, nms))
+                elif isinstance(v, ast.Subscript) and isinstance(
+                        v.value, ast.Name) and len(m.globals.get(
+                            v.value.id, [])) == 1 and isinstance(
+                                m.globals[v.value.id][0], ast.Dict):
+                    # ew, sw = TABLE[<name>]: one origin per table row
+                    tab = m.globals[v.value.id][0]
+                    for k_, row in zip(tab.keys, tab.values):
+                        if isinstance(k_, ast.Constant) and isinstance(
+                                row, (ast.Tuple, ast.List)) and idx < len(
+                                    row.elts) and isinstance(
+                                        row.elts[idx], ast.Constant):
+                            res.append(('const', row.elts[idx].value,
+                                        {k_.value} if k_.value in FP_REF
+                                        else set()))
+                        else:
+                            res.append(('unknown', unparse(row), set()))
                 else:
                     res.append(('unknown', unparse(v), set()))
             return res or [('unknown', e.id, set())]
